@@ -188,6 +188,24 @@ def embedded_specs(maxdepth, strlen):
     yield ['param', 'A', 'string', {'value': ['a', [e1]], 'embedded_object': 'object', 'is_array': True}]
     yield ['prop', 'E', ['n'], {'type': 'string', 'embedded_object': 'instance'}]
     yield ['prop', 'E', ['n'], {'type': 'string', 'embedded_object': 'object', 'is_array': True}]
+    # an instance whose key property differs from the keybinding of its path (both must survive)
+    for ns, host in ((None, None), ('n', None), ('n', 'h')):
+        yield ['inst', 'Foo', [['prop', 'k', ['s', 'changed'], {}], ['prop', 'p', ['i', 'uint8', 1], {}]],
+               ['ipath', 'Foo', [['k', ['s', 'a']], ['K2', ['i', 'uint8', 2]]], ns, host]]
+    # every array shape of embedded values (empty, NULL, NULL entries, one, two) in every carrier
+    for eo in ('instance', 'object'):
+        items = [e1] + ([cls] if eo == 'object' else [])
+        shapes = [['n'], ['a', []], ['a', [['n']]]]
+        for it in items:
+            shapes += [['a', [it]], ['a', [it, ['n']]], ['a', [['n'], it]], ['a', [it, it]]]
+        for v in shapes:
+            kw = {'type': 'string', 'embedded_object': eo, 'is_array': True}
+            yield ['prop', 'E', v, kw]
+            yield ['inst', 'Out', [['prop', 'E', v, kw]], None]
+            yield ['inst', 'Out', [['prop', 'E', ['inst', 'Mid', [['prop', 'F', v, kw]], None],
+                                    {'type': 'string', 'embedded_object': 'instance'}]], None]
+            yield ['class', 'Out', [['prop', 'E', v, kw]], [], {}]
+            yield ['param', 'A', 'string', {'value': v, 'embedded_object': eo, 'is_array': True}]
 
 
 NONE_T_F = [None, True, False]
